@@ -50,3 +50,45 @@ def check_C20(res, replay):
     return L.finish(res, "proof", "lake build OptRs.Props.C20 (decide +kernel over all 118 elements) + #print axioms audit",
                     "exhaustive: every atomic number 0..130, every element symbol, plus a stream of non-symbols; "
                     "distinct = distinct query lines")
+
+
+def standard(res, translators, prop_mods, streams, level, checker, rule, extra_audit=(), oracle_streams=()):
+    """The common shape: translate, prove, build both sides, run each (stream, args, model_stream) and compare."""
+    L.run_translators(translators, res)
+    L.prove(prop_mods, res, extra_audit)
+    if L.build_harness(res) and L.build_model(res):
+        for stream, args, model_stream in streams:
+            lines = harness_lines(stream, args, res)
+            if lines is not None:
+                L.compare_lines(lines, model_stream, res, stream)
+    return L.finish(res, level, checker, rule)
+
+
+# ---------------------------------------------------------------------------------------------------- C10
+
+def check_C10(res, replay):
+    res.trusted = TB_COMMON + ["axioms audited: subset of {propext, Classical.choice, Quot.sound}",
+                               "hand model OptRs/Model/Topology.lean of add_angles/add_dihedrals/add_non_bonded_pairs"]
+    res.assumptions = ["HashSet semantics modelled as key-deduplicated lists (insert keeps the first element of a key)",
+                       "the model is tied to the code by the exhaustive correspondence over all labelled graphs on <=5 (quick) / <=6 (thorough) atoms plus random graphs"]
+    res.exhaustive = True
+    return standard(res, [], ["OptRs.Props.C10"], [("topology", [], "topology")], "proof",
+                    "lake build OptRs.Props.C10 + #print axioms audit",
+                    "every labelled graph on n<=5 atoms (quick; n<=6 thorough) with varied storage direction and insertion order, "
+                    "plus random sparse/dense/star/ring/tree/disconnected graphs up to 40 atoms; non-trivial = has at least one angle",
+                    extra_audit=["OptRs.Lemmas.Sets", "OptRs.Lemmas.TopologyLemmas", "OptRs.Model.Topology"])
+
+
+# ---------------------------------------------------------------------------------------------------- C16
+
+def check_C16(res, replay):
+    res.trusted = TB_COMMON + ["axioms audited: subset of {propext, Classical.choice, Quot.sound}",
+                               "hand model OptRs.Model.setBondOrders of PyMoleculeWrapper::set_bond_orders; float classification in the driver"]
+    res.assumptions = ["a panic of the wrapper method is read as 'rejected' (what Python sees as an exception)",
+                       "entries are abstract (zero / order / unsupported) in the theorems; the float tolerance reading is corresponded, not proved"]
+    res.exhaustive = True
+    return standard(res, ["tables"], ["OptRs.Props.C16", "OptRs.Props.C10"], [("matrix", [], "matrix")], "proof",
+                    "lake build OptRs.Props.C16 OptRs.Props.C10 + #print axioms audit",
+                    "all symmetric matrices over {0,1,1.5,2,3,4} for N<=3 (quick; N<=4 thorough), random symmetric and asymmetric "
+                    "matrices to N=20, wrong sizes, unsupported and tolerance-edge values; through the cfg(optrs_verif) wrapper driver",
+                    extra_audit=["OptRs.Lemmas.Sets", "OptRs.Lemmas.TopologyLemmas", "OptRs.Model.Topology"])
